@@ -282,6 +282,28 @@ def opt_inner(ty):
 _DEFAULTS = {}
 
 
+def _tests_after_conversion(fn, S):
+    out = []
+    env0 = self_env(fn)
+    src_ty = S.replace(' ', '')
+    for x in walk(fn.hir):
+        if x.get('k') == 'MethodCall' and len(x.get('ch', [])) == 1 and \
+                callee_is(x, 'IsNone::is_none', 'IsNone::not_none', 'Option::is_none', 'Option::is_some'):
+            try:
+                en = dtree.env_at(fn.hir, x, env0)
+                who = dtree.canon(x['ch'][0], dict(en))
+            except Exception:
+                continue
+            if who != 'self':
+                continue
+            ty = (x.get('recv_ty') or peel(x['ch'][0]).get('ty') or '').replace(' ', '')
+            while ty.startswith('&'):
+                ty = ty[1:].replace('mut', '', 1) if ty[1:].startswith('mut') else ty[1:]
+            if ty and ty != src_ty and ty != 'Self':
+                out.append('`%s` of type %s' % (src(x['ch'][0])[:40], ty))
+    return out
+
+
 def check_casts(run, F, skip_time=False):
     inst = cast_instances(F)
     _DEFAULTS.clear()
@@ -355,6 +377,13 @@ def check_casts(run, F, skip_time=False):
                    'audited: ' + AUDITED_CASTS[(S, U)][1])
             continue
         ok, why = null_preserving(fn, S, U, t, leaf, body)
+        if ok:
+            # coercions are erased in the table, so `self.cast().is_none()` reads like `self.is_none()`:
+            # the null test must be applied to the source value itself, not to a converted one
+            late = _tests_after_conversion(fn, S)
+            if late:
+                ok, why = False, 'the null test is applied to a converted value (%s), not to the %s source: ' \
+                    'a conversion does not keep the null (NaN as i64 = 0)' % (late[0], _short(S))
         run.ob('CAST.null', fnq, key, ok, fn.loc(), why)
     return n
 
